@@ -871,10 +871,12 @@ impl Child {
         self.perform(fi, a, cls, bad, c.v, false)
     }
 
-    fn read_error(&mut self) -> Result<String, ()> {
+    /// `c2pa_error()` + release of the returned string. `None`: the library returned NULL (it does so when the stored
+    /// message contains a NUL byte); the Rust-side accessor is then used for the diagnostic text only.
+    fn read_error(&mut self) -> Result<Option<String>, ()> {
         let p = unsafe { ffi::c2pa_error() };
         if p.is_null() {
-            self.violation("C31:error-message-null".into(), "c2pa_error() returned NULL".into())?;
+            return Ok(None);
         }
         let s = unsafe { CStr::from_ptr(p) }.to_string_lossy().into_owned();
         let r = unsafe { ffi::c2pa_free(p as *const c_void) };
@@ -884,7 +886,7 @@ impl Child {
                 format!("c2pa_free of the string returned by c2pa_error() gave {r}"),
             )?;
         }
-        Ok(s)
+        Ok(Some(s))
     }
 
     fn perform(&mut self, fi: usize, a: [usize; 4], cls: [Cl; 4], bad: Option<usize>, v: [u8; 3], implicit: bool) -> Result<Ret, ()> {
@@ -928,7 +930,21 @@ impl Child {
             (R::Ptr, Ret::Ptr(_)) | (R::Int, Ret::Int(_)) | (R::Bool, Ret::Bool(_)) | (R::Void, Ret::Void)
         );
         assert!(shape_ok, "harness table: return shape of {} does not match", spec.name);
-        let msg = self.read_error()?;
+        let msg = match self.read_error()? {
+            Some(m) => m,
+            None => {
+                let raw = ffi::CimplError::last_message().unwrap_or_default();
+                self.count("error_message_unretrievable");
+                emit(json!({"e": "note", "what": format!("c2pa_error() returned NULL after {}; stored message: {:?}", spec.name, raw)}));
+                if let Some(pi) = bad {
+                    self.violation(
+                        format!("C31:error-message-null:{}", bad_key.clone().unwrap_or_default()),
+                        format!("{} with a {} pointer: c2pa_error() returned NULL (stored message {:?})", spec.name, cls[pi].name(), raw),
+                    )?;
+                }
+                format!("<unretrievable> {}", raw.replace('\0', "\\0"))
+            }
+        };
         let changed = !msg.contains(&tag);
         let indicated = match out.ret {
             Ret::Ptr(p) => p == 0,
